@@ -157,11 +157,12 @@ def frma(rng):
 
 
 def schm(rng):
-    with_uri = rng.random() < .5
+    # optional string: absent / present-but-empty / non-empty are three different layouts
+    uri = FORCE["uri"] if "uri" in FORCE else rng.choice([None, None, b"", text(rng, 1, 20)])
     p = rng.choice([b"cenc", b"cbcs", b"piff"]) + struct.pack(">I", rng.choice([0x10000, 0, bnd(rng, 32)]))
-    if with_uri:
-        p += text(rng, 0, 20) + b"\0"
-    return full(b"schm", 0, 1 if with_uri else 0, p)
+    if uri is not None:
+        p += uri + b"\0"
+    return full(b"schm", 0, 0 if uri is None else 1, p)
 
 
 def tenc(rng, iv=None):
@@ -174,7 +175,9 @@ def sinf(rng, fmt=b"avc1", iv=None):
 
 
 def mime(rng):
-    return full(b"mime", 0, 0, rng.choice([b"image/png", b"application/ttml+xml;codecs=im1t", text(rng, 1, 30, False)]) + b"\0")
+    ct = FORCE["ctype"] if "ctype" in FORCE else rng.choice([b"image/png", b"application/ttml+xml;codecs=im1t", b"",
+                                                             text(rng, 1, 30, False)])
+    return full(b"mime", 0, 0, ct + b"\0")
 
 
 def vttc(rng):
@@ -451,6 +454,11 @@ def synth_grid():
     for width in (0, 1, 2, 3, 4):
         for extra in (0, 100, 110, 120, 125, 126, 127, 128, 129, 200):
             run(f"esds.width{width}.extra{extra}", esds, width=width, extra=extra, fi=3, core=0)
+    # every optional / NUL-terminated string: absent, present but empty, one character, text, non-ASCII
+    for k, uri in enumerate((None, b"", b"u", b"urn:mpeg:dash:mp4protection:2011", "\u00e9\u65e5".encode("utf-8"))):
+        run(f"schm.uri{k}", schm, uri=uri)
+    for k, ct in enumerate((b"", b"x", b"image/png", b"application/ttml+xml;codecs=im1t")):
+        run(f"mime.ctype{k}", mime, ctype=ct)
     for i in range(12):
         run(f"sample_entry.{i}", sample_entry)
         run(f"moov.{i}", moov)
